@@ -88,7 +88,10 @@ def check_drop_water(ctx, rng):
     _f, res = G.window(rng)
     G.set_chain(res, "A", 1)
     c = G.centroid(res)
-    waters = [G.water(rng, "A", 900 + i, c, 10.0, rng.choice(["HOH", "WAT"])) for i in range(rng.randint(1, 4))]
+    # waters as HETATM (deposited files) or ATOM records (MD tool chains), under both water residue names
+    rec = rng.choice(["HETATM", "HETATM", "ATOM  ", "mixed"])
+    waters = [G.water(rng, "A", 900 + i, c, 10.0, rng.choice(["HOH", "WAT"]), record=(rec if rec != "mixed" else ["HETATM", "ATOM  "][i % 2])) for i in range(rng.randint(1, 4))]
+    ctx.count("drop-water: water record type", rec.strip())
     ff = rng.choice(c01.FFS)
     with_w = G.to_pdb([res], waters)
     without = "\n".join(l for l in with_w.splitlines() if l[17:20] not in ("HOH", "WAT")) + "\n"
